@@ -137,6 +137,46 @@ Theorem rejects_out_of_range_cli :
     v < 0 \/ max_addr u65 < v -> exists e, get_vela_config u65 imx files sys mem (Some v) = Err e.
 Proof. exact rejects_out_of_range_cli_lemma. Qed.
 
+(* the path-resolution rule over (working-directory components, argument components, bundled directory):
+   absolute argument -> that file, whatever the working directory; exactly two ordinary relative components ->
+   bundled directory; arguments of these two kinds make the whole resolution independent of the working directory *)
+Theorem resolve_path_absolute :
+  forall bdir cwd p, p_abs p = true -> resolve_path bdir cwd p = if ends_ini (norm p) then Some (norm p) else None.
+Proof. exact resolve_path_absolute_lemma. Qed.
+
+Theorem resolve_path_dirfile :
+  forall bdir cwd d i f l,
+    resolve_path bdir cwd (mkPath false [CName d i 0; CName f true l]) = Some (bdir ++ [CName d i 0; CName f true l]).
+Proof. exact resolve_path_dirfile_lemma. Qed.
+
+Theorem resolve_path_two_components :
+  forall bdir cwd p d i c2,
+    p_abs p = false -> norm p = [CName d i 0; c2] -> ends_ini (norm p) = true ->
+    resolve_path bdir cwd p = Some (bdir ++ norm p).
+Proof. exact resolve_path_two_components_lemma. Qed.
+
+Theorem resolve_path_cwd_free :
+  forall bdir cwd1 cwd2 p, cwd_free p = true -> resolve_path bdir cwd1 p = resolve_path bdir cwd2 p.
+Proof. exact resolve_path_cwd_free_lemma. Qed.
+
+Theorem main_concrete_cwd_independent :
+  forall pm w cwd1 cwd2 a,
+    pm_pass_resolved pm = true -> forallb cwd_free (c_config a) = true ->
+    main_concrete pm w cwd1 a = main_concrete pm w cwd2 a.
+Proof. exact main_concrete_cwd_independent_lemma. Qed.
+
+Theorem main_concrete_matches_doc :
+  forall w cwd a, to_option (main_concrete (mkMP None true false) w cwd a) = spec_main_c w cwd a.
+Proof. exact main_concrete_matches_doc_lemma. Qed.
+
+(* making the argument relative to the working directory before classifying it (os.path.relpath) breaks the first fact *)
+Theorem relpath_variant_refuted :
+  exists bdir cwd p,
+    p_abs p = true /\ resolve_path bdir cwd p = Some (norm p) /\
+    resolve_path bdir cwd (relpath cwd p) <> resolve_path bdir cwd p /\
+    resolve_path bdir cwd (relpath cwd p) = Some (bdir ++ [CName 12 false 0; CName 13 true 0]).
+Proof. exact relpath_variant_refuted_lemma. Qed.
+
 Print Assumptions read_config_spec.
 Print Assumptions read_config_terminates.
 Print Assumptions read_config_recursion_iff_cyclic.
@@ -152,3 +192,8 @@ Print Assumptions rejects_unknown_sys.
 Print Assumptions rejects_self_inheritance.
 Print Assumptions rejects_illegal.
 Print Assumptions rejects_out_of_range_cli.
+Print Assumptions resolve_path_absolute.
+Print Assumptions resolve_path_cwd_free.
+Print Assumptions main_concrete_cwd_independent.
+Print Assumptions main_concrete_matches_doc.
+Print Assumptions relpath_variant_refuted.
